@@ -107,12 +107,10 @@ void WriteSolFile(fmt::CStringRef filename, const Solution &sol) {
   try {
   internal::WriteMessage(file, sol.message());
   // Write options.
-  file.print("Options\n");
-  if (int num_options = sol.num_options()) {
-    file.print("{}\n", num_options);
-    for (int i = 0; i < num_options; ++i)
-      file.print("{}\n", sol.option(i));
-  }
+  int num_options = sol.num_options();
+  file.print("Options\n{}\n", num_options);
+  for (int i = 0; i < num_options; ++i)
+    file.print("{}\n", sol.option(i));
   int num_values = sol.num_values(), num_dual_values = sol.num_dual_values(),
     num_vars = sol.num_vars(), num_constraints = sol.num_algebraic_cons();
   file.print("{0}\n{1}\n{2}\n{3}\n",
